@@ -68,20 +68,19 @@ Record st := {
   midx : idxv;                   (* in-memory index *)
   arts : list N;                 (* artifact blobs on disk (complete) *)
   art_tmps : list N;             (* <id>.tmp blobs on disk *)
-  win : bool;                    (* ghost: inside the known crash window (see CrashProofs.KnownCrashClass) *)
-  acks : list N                  (* ghost: frames/ops acknowledged to the caller *)
+  acks : list N                  (* ghost: ids of the frames whose append was acknowledged to the caller *)
 }.
 
 Definition init : st :=
   {| truth := []; tw := bw_empty; sides := []; sw := bw_empty; nexts := []; idx := None; idx_tmp := None;
-     midx := idx_empty; arts := []; art_tmps := []; win := false; acks := [] |}.
+     midx := idx_empty; arts := []; art_tmps := []; acks := [] |}.
 
 (* restart: the disk survives, everything in memory is gone; ContinuityStore::new loads index.json *)
 Definition recover (s : st) : st :=
   {| truth := truth s; tw := bw_empty; sides := sides s; sw := bw_empty; nexts := [];
      idx := idx s; idx_tmp := idx_tmp s;
      midx := match idx s with Some i => i | None => idx_empty end;
-     arts := arts s; art_tmps := art_tmps s; win := win s; acks := acks s |}.
+     arts := arts s; art_tmps := art_tmps s; acks := acks s |}.
 
 (* ---------- reading files ---------- *)
 (* lines of a JSONL file; a final unterminated segment is a line too (BufRead::lines) *)
@@ -172,29 +171,29 @@ Inductive instr :=
 | IIdxRename                                      (* fs::rename(tmp, index.json) *)
 | IArtTmp (a : N)
 | IArtRename (a : N)
-| IAck (fid : N)
-| IWin (b : bool).
+| IAck (fid : N)                                  (* ghost: the append of frame fid is acknowledged (the call returns Ok) *)
+| IOk.                                            (* ghost: the operation returns Ok *)
 
 Definition side_of (s : st) (c : N) : list chunk := match get c (sides s) with Some ch => ch | None => [] end.
 
 Definition upd_truth (s : st) (t : list chunk) (w : bufw) : st :=
   {| truth := t; tw := w; sides := sides s; sw := sw s; nexts := nexts s; idx := idx s; idx_tmp := idx_tmp s;
-     midx := midx s; arts := arts s; art_tmps := art_tmps s; win := win s; acks := acks s |}.
+     midx := midx s; arts := arts s; art_tmps := art_tmps s; acks := acks s |}.
 Definition upd_sides (s : st) (m : list (N * list chunk)) (w : bufw) : st :=
   {| truth := truth s; tw := tw s; sides := m; sw := w; nexts := nexts s; idx := idx s; idx_tmp := idx_tmp s;
-     midx := midx s; arts := arts s; art_tmps := art_tmps s; win := win s; acks := acks s |}.
+     midx := midx s; arts := arts s; art_tmps := art_tmps s; acks := acks s |}.
 Definition upd_nexts (s : st) (m : list (N * N)) : st :=
   {| truth := truth s; tw := tw s; sides := sides s; sw := sw s; nexts := m; idx := idx s; idx_tmp := idx_tmp s;
-     midx := midx s; arts := arts s; art_tmps := art_tmps s; win := win s; acks := acks s |}.
+     midx := midx s; arts := arts s; art_tmps := art_tmps s; acks := acks s |}.
 Definition upd_idx (s : st) (i t : option idxv) (m : idxv) : st :=
   {| truth := truth s; tw := tw s; sides := sides s; sw := sw s; nexts := nexts s; idx := i; idx_tmp := t;
-     midx := m; arts := arts s; art_tmps := art_tmps s; win := win s; acks := acks s |}.
+     midx := m; arts := arts s; art_tmps := art_tmps s; acks := acks s |}.
 Definition upd_arts (s : st) (a t : list N) : st :=
   {| truth := truth s; tw := tw s; sides := sides s; sw := sw s; nexts := nexts s; idx := idx s; idx_tmp := idx_tmp s;
-     midx := midx s; arts := a; art_tmps := t; win := win s; acks := acks s |}.
-Definition upd_ghost (s : st) (w : bool) (a : list N) : st :=
+     midx := midx s; arts := a; art_tmps := t; acks := acks s |}.
+Definition upd_acks (s : st) (a : list N) : st :=
   {| truth := truth s; tw := tw s; sides := sides s; sw := sw s; nexts := nexts s; idx := idx s; idx_tmp := idx_tmp s;
-     midx := midx s; arts := arts s; art_tmps := art_tmps s; win := w; acks := a |}.
+     midx := midx s; arts := arts s; art_tmps := art_tmps s; acks := a |}.
 
 Definition exec (s : st) (i : instr) : st :=
   match i with
@@ -215,8 +214,8 @@ Definition exec (s : st) (i : instr) : st :=
   | IIdxRename => match idx_tmp s with Some t => upd_idx s (Some t) None (midx s) | None => s end
   | IArtTmp a => upd_arts s (arts s) (a :: art_tmps s)
   | IArtRename a => upd_arts s (a :: arts s) (filter (fun x => negb (x =? a)) (art_tmps s))
-  | IAck f => upd_ghost s (win s) (acks s ++ [f])
-  | IWin b => upd_ghost s b (acks s)
+  | IAck f => upd_acks s (acks s ++ [f])
+  | IOk => s
   end.
 
 Definition run_instrs (s : st) (is : list instr) : st := fold_left exec is s.
@@ -231,41 +230,35 @@ Inductive op :=
 | OHandoff (p c : N) (a : N) (len0 len1 : N)
 | ODropRead (c : N).                         (* full sidecar lost, then replay_events *)
 
-(* writer of the truth log: fx = true is the repaired writer (one write for line + "\n"),
-   fx = false the writer before the repair (two writes), kept for the refutation witness S7 *)
-Definition truth_append (fx : bool) (f : frame) : list instr :=
-  if fx then [IPt 1; IPt 2; ITruthWrite [Body f; NL]; IPt 3; IPt 4; ITruthFlush; IPt 5]
+(* which version of the code: fw = the truth-log writer issues ONE write for line + "\n" (repo bd2ee56;
+   false = the two writes before it, suspicion S7); fr = load_next_seq_for numbers from the truth log and
+   only trusts a sidecar whose tail agrees with it (the S3 repair; false = sidecar tail first) *)
+Record ver := { fw : bool; fr : bool }.
+Definition fixed : ver := {| fw := true; fr := true |}.
+
+Definition truth_append (v : ver) (f : frame) : list instr :=
+  if fw v then [IPt 1; IPt 2; ITruthWrite [Body f; NL]; IPt 3; IPt 4; ITruthFlush; IPt 5]
   else [IPt 1; IPt 2; ITruthWrite [Body f]; IPt 3; ITruthWrite [NL]; IPt 4; ITruthFlush; IPt 5].
 
-(* the position at which the truth line is on disk: right after the write when it bypasses the
-   buffer, else after the flush.  `w` = whether this append opens the known crash window (S3) *)
-Definition truth_append_w (fx w : bool) (f : frame) : list instr :=
-  if negb w then truth_append fx f
-  else if fx then
-    if CAP <=? f_len f + 1 then [IPt 1; IPt 2; ITruthWrite [Body f; NL]; IWin true; IPt 3; IPt 4; ITruthFlush; IPt 5]
-    else [IPt 1; IPt 2; ITruthWrite [Body f; NL]; IPt 3; IPt 4; ITruthFlush; IWin true; IPt 5]
-  else
-    if CAP <=? f_len f then [IPt 1; IPt 2; ITruthWrite [Body f]; IWin true; IPt 3; ITruthWrite [NL]; IPt 4; ITruthFlush; IPt 5]
-    else [IPt 1; IPt 2; ITruthWrite [Body f]; IPt 3; ITruthWrite [NL]; IPt 4; ITruthFlush; IWin true; IPt 5].
-
-(* ContinuityStreamCache::append_best_effort, full sidecar part (the derived sidecars and indexes are
-   not modelled; their crash points are mapped to tag 24/25 by the harness) *)
+(* ContinuityStreamCache::append_best_effort, full sidecar part: body and newline are two writes into a
+   fresh BufWriter (the derived sidecars and indexes are not modelled; the harness checks their crash points
+   with the oracle only) *)
 Definition side_append (c : N) (f : frame) : list instr :=
-  if CAP <=? f_len f
-  then [ISideOpen c; IPt 21; ISideWrite c [Body f]; IWin false; IPt 22; ISideWrite c [NL]; IPt 23; ISideFlush c; IPt 24; IPt 25]
-  else [ISideOpen c; IPt 21; ISideWrite c [Body f]; IPt 22; ISideWrite c [NL]; IPt 23; ISideFlush c; IWin false; IPt 24; IPt 25].
+  [ISideOpen c; IPt 21; ISideWrite c [Body f]; IPt 22; ISideWrite c [NL]; IPt 23; ISideFlush c; IPt 24].
 
 Definition save_index : list instr := [IPt 51; IIdxTmp; IPt 52; IIdxRename; IPt 53].
 Definition write_blob (a : N) : list instr := [IPt 54; IArtTmp a; IPt 55; IArtRename a; IPt 56].
 
 Definition mkf (sid seq fid len : N) (art : option N) : frame := {| f_sid := sid; f_seq := seq; f_fid := fid; f_len := len; f_art := art |}.
 
-(* rebuild_best_effort: File::create, then every line through one BufWriter, flush at the end.  While it
-   runs the file is a prefix of the stream: a crash leaves a stale sidecar (window, class c) *)
+(* rebuild_best_effort: File::create, then every line (two writes each) through one BufWriter, flush at the end *)
 Definition rebuild (c : N) (evs : list frame) : list instr :=
-  [ISideCreate c; IWin true; IPt 61]
+  [ISideCreate c; IPt 61]
   ++ flat_map (fun f => [ISideWrite c [Body f]; IPt 62; ISideWrite c [NL]; IPt 63]) evs
-  ++ [ISideFlush c; IWin false; IPt 64].
+  ++ [ISideFlush c; IPt 64].
+
+Definition rebuild_nonempty (c : N) (evs : list frame) : list instr :=
+  match evs with [] => [] | _ => rebuild c evs end.
 
 (* ContinuityStore::replay_events: (instructions, result); None = Err *)
 Definition replay_events (s : st) (c : N) : list instr * option (list frame) :=
@@ -274,53 +267,73 @@ Definition replay_events (s : st) (c : N) : list instr * option (list frame) :=
   | None =>
     match replay_validated s with
     | None => ([], None)
-    | Some fs =>
-      let evs := stream (2 * c) fs in
-      match evs with
-      | [] => ([], Some [])
-      | _ => (rebuild c evs, Some evs)
-      end
+    | Some fs => let evs := stream (2 * c) fs in (rebuild_nonempty c evs, Some evs)
     end
   end.
 
-(* seq resolution of a locked append: next_seq map, else load_next_seq_for (sidecar tail, else
-   replay_events).  (instructions, seq); None = the append returns Err *)
-Definition resolve (s : st) (c : N) : list instr * option N :=
+(* EventLog::last_seq: the log read backwards up to the first frame of the stream; a line that is not one
+   frame is an error, an empty line is skipped *)
+Inductive tl := TlErr | TlNone | TlSome (q : N).
+Fixpoint scan_last (sid : N) (rls : list (list frame)) : tl :=
+  match rls with
+  | [] => TlNone
+  | [] :: r => scan_last sid r
+  | [f] :: r => if f_sid f =? sid then TlSome (f_seq f) else scan_last sid r
+  | _ :: _ => TlErr
+  end.
+Definition truth_last (s : st) (sid : N) : tl := scan_last sid (rev (lines (truth s))).
+
+(* load_next_seq_for before the repair: sidecar tail, else replay_events *)
+Definition load_next_unfixed (s : st) (c : N) : list instr * option N :=
+  match side_tail_seq s c with
+  | Some q => ([], Some (q + 1))
+  | None =>
+    let r := replay_events s c in
+    match snd r with
+    | Some evs => match last_opt evs with Some f => (fst r, Some (f_seq f + 1)) | None => (fst r, None) end
+    | None => (fst r, None)
+    end
+  end.
+
+(* load_next_seq_for as repaired: the truth log decides; a sidecar whose tail disagrees is rebuilt (best
+   effort: only when the whole log validates); a log without the stream = NotFound; an unreadable log tail
+   = the behaviour before the repair (appends stay available from the sidecar) *)
+Definition load_next_fixed (s : st) (c : N) : list instr * option N :=
+  match truth_last s (2 * c) with
+  | TlSome q =>
+    if match side_tail_seq s c with Some q' => q' =? q | None => false end then ([], Some (q + 1))
+    else
+      match replay_validated s with
+      | None => ([], Some (q + 1))
+      | Some fs => (rebuild_nonempty c (stream (2 * c) fs), Some (q + 1))
+      end
+  | TlNone => ([], None)
+  | TlErr => load_next_unfixed s c
+  end.
+
+(* seq resolution of a locked append: next_seq map, else load_next_seq_for.  (instructions, seq); None =
+   the append returns Err *)
+Definition resolve (v : ver) (s : st) (c : N) : list instr * option N :=
   match get (2 * c) (nexts s) with
   | Some n => ([], Some n)
-  | None =>
-    match side_tail_seq s c with
-    | Some q => ([], Some (q + 1))
-    | None =>
-      let r := replay_events s c in
-      match snd r with
-      | Some evs => match last_opt evs with Some f => (fst r, Some (f_seq f + 1)) | None => (fst r, None) end
-      | None => (fst r, None)
-      end
-    end
+  | None => if fr v then load_next_fixed s c else load_next_unfixed s c
   end.
 
-(* does the sidecar of c, as it is on disk, answer try_read_last_seq?  Then a truth line that is not yet
-   in it makes it a stale prefix that restart trusts: the known crash window *)
-Definition side_trusted (s : st) (c : N) : bool :=
-  match side_tail_seq s c with Some _ => true | None => false end.
-
-Definition locked_append (fx : bool) (s : st) (c : N) (fid len : N) (art : option N) : list instr :=
-  let r := resolve s c in
+Definition locked_append (v : ver) (s : st) (c : N) (fid len : N) (art : option N) : list instr :=
+  let r := resolve v s c in
   [IPt 11; IPt 12] ++ fst r ++
   match snd r with
   | None => []
   | Some seq =>
     let f := mkf (2 * c) seq fid len art in
-    let w := side_trusted (run_instrs s (fst r)) c in
-    truth_append_w fx w f ++ [IPt 13] ++ side_append c f
-    ++ [IPt 14; IPt 15; ISetNext (2 * c) (seq + 1); IPt 16; IAck fid]
+    truth_append v f ++ [IPt 13] ++ side_append c f
+    ++ [IPt 14; IPt 15; ISetNext (2 * c) (seq + 1); IPt 16; IAck fid; IOk]
   end.
 
 (* create_continuity: fixed seq 0, no lock, index saved, then next_seq := 1 *)
-Definition create (fx : bool) (c : N) (fid len : N) (dflt : bool) : list instr :=
+Definition create (v : ver) (c : N) (fid len : N) (dflt : bool) : list instr :=
   let f := mkf (2 * c) 0 fid len None in
-  truth_append fx f ++ [IPt 13] ++ side_append c f ++ [IPt 14; IPt 15]
+  truth_append v f ++ [IPt 13] ++ side_append c f ++ [IPt 14; IPt 15]
   ++ [IIdxMem (if dflt then Some c else None) (Some c)] ++ save_index
   ++ [IPt 19; IPt 17; ISetNext (2 * c) 1; IPt 18].
 
@@ -328,25 +341,32 @@ Definition create (fx : bool) (c : N) (fid len : N) (dflt : bool) : list instr :
 Definition latest_created (fs : list frame) : option N :=
   option_map (fun f => f_sid f / 2) (last_opt (filter (fun f => (f_seq f =? 0) && (N.even (f_sid f))) fs)).
 
-Definition compile (fx : bool) (s : st) (i : N) (o : op) : list instr :=
+(* branch / handoff child: created (seq 0), then the link frame with the fixed seq 1, next_seq := 2 *)
+Definition child (v : ver) (c : N) (i : N) (len0 len1 : N) (blob : list instr) (art : option N) : list instr :=
+  let f1 := mkf (2 * c) 1 (4 * i + 1) len1 art in
+  create v c (4 * i) len0 false ++ blob
+  ++ truth_append v f1 ++ [IPt 13] ++ side_append c f1
+  ++ [IPt 14; IPt 15; IPt 17; ISetNext (2 * c) 2; IPt 18; IAck (4 * i); IAck (4 * i + 1); IOk].
+
+Definition compile (v : ver) (s : st) (i : N) (o : op) : list instr :=
   match o with
   | OEnsure c len =>
     match ix_default (midx s) with
-    | Some _ => [IAck (4 * i + 3)]
+    | Some _ => [IOk]
     | None =>
       match replay_validated s with
       | None => []
       | Some fs =>
         match latest_created fs with
-        | Some d => [IIdxMem (Some d) None] ++ save_index ++ [IAck (4 * i + 3)]
-        | None => create fx c (4 * i) len true ++ [IAck (4 * i)]
+        | Some d => [IIdxMem (Some d) None] ++ save_index ++ [IOk]
+        | None => create v c (4 * i) len true ++ [IAck (4 * i); IOk]
         end
       end
     end
-  | OAppend c len => locked_append fx s c (4 * i) len None
+  | OAppend c len => locked_append v s c (4 * i) len None
   | OSess x len =>
     let n := match get (2 * x + 1) (nexts s) with Some n => n | None => 0 end in
-    truth_append fx (mkf (2 * x + 1) n (4 * i) len None) ++ [ISetNext (2 * x + 1) (n + 1); IAck (4 * i)]
+    truth_append v (mkf (2 * x + 1) n (4 * i) len None) ++ [ISetNext (2 * x + 1) (n + 1); IAck (4 * i); IOk]
   | OCheckpoint c a has_msg len =>
     let r := replay_events s c in
     fst r ++
@@ -354,55 +374,40 @@ Definition compile (fx : bool) (s : st) (i : N) (o : op) : list instr :=
     | Some (_ :: _) =>
       if has_msg then
         let s1 := run_instrs s (fst r) in
-        write_blob a ++ locked_append fx s1 c (4 * i) len (Some a)
+        write_blob a ++ locked_append v s1 c (4 * i) len (Some a)
       else []
     | _ => []
     end
   | OBranch p c len0 len1 =>
     let r := replay_events s p in
-    fst r ++
-    match snd r with
-    | Some (_ :: _) =>
-      let f1 := mkf (2 * c) 1 (4 * i + 1) len1 None in
-      create fx c (4 * i) len0 false
-      ++ truth_append_w fx true f1 ++ [IPt 13] ++ side_append c f1
-      ++ [IPt 14; IPt 15; IPt 17; ISetNext (2 * c) 2; IPt 18; IAck (4 * i); IAck (4 * i + 1)]
-    | _ => []
-    end
+    fst r ++ match snd r with Some (_ :: _) => child v c i len0 len1 [] None | _ => [] end
   | OHandoff p c a len0 len1 =>
     let r := replay_events s p in
-    fst r ++
-    match snd r with
-    | Some (_ :: _) =>
-      let f1 := mkf (2 * c) 1 (4 * i + 1) len1 (Some a) in
-      create fx c (4 * i) len0 false ++ write_blob a
-      ++ truth_append_w fx true f1 ++ [IPt 13] ++ side_append c f1
-      ++ [IPt 14; IPt 15; IPt 17; ISetNext (2 * c) 2; IPt 18; IAck (4 * i); IAck (4 * i + 1)]
-    | _ => []
-    end
+    fst r ++ match snd r with Some (_ :: _) => child v c i len0 len1 (write_blob a) (Some a) | _ => [] end
   | ODropRead c =>
     let s1 := exec s (ISideRemove c) in
     ISideRemove c :: fst (replay_events s1 c)
   end.
 
 (* run whole operations *)
-Fixpoint run_ops (fx : bool) (s : st) (i : N) (ops : list op) : st :=
+Fixpoint run_ops (v : ver) (s : st) (i : N) (ops : list op) : st :=
   match ops with
   | [] => s
-  | o :: r => run_ops fx (run_instrs s (compile fx s i o)) (i + 1) r
+  | o :: r => run_ops v (run_instrs s (compile v s i o)) (i + 1) r
   end.
 
 (* the first k instructions of a history *)
-Fixpoint run_k (fx : bool) (k : nat) (s : st) (i : N) (ops : list op) : st :=
+Fixpoint run_k (v : ver) (k : nat) (s : st) (i : N) (ops : list op) : st :=
   match ops with
   | [] => s
   | o :: r =>
-    let is := compile fx s i o in
+    let is := compile v s i o in
     if Nat.leb k (length is) then run_instrs s (firstn k is)
-    else run_k fx (k - length is) (run_instrs s is) (i + 1) r
+    else run_k v (k - length is) (run_instrs s is) (i + 1) r
   end.
 
-Definition crash (fx : bool) (k : nat) (hist : list op) : st := recover (run_k fx k init 0 hist).
+(* process death after the first k instructions of the history, then restart *)
+Definition crash (v : ver) (k : nat) (hist : list op) : st := recover (run_k v k init 0 hist).
 
 (* ---------- correspondence ---------- *)
 Definition is_pt (i : instr) : option N := match i with IPt t => Some t | _ => None end.
@@ -418,13 +423,13 @@ Fixpoint upto_point (n : nat) (s : st) (is : list instr) : (st * N) + (st * nat)
     | None => upto_point n s' r
     end
   end.
-Fixpoint crash_at_point (fx : bool) (n : nat) (s : st) (i : N) (ops : list op) : st * N :=
+Fixpoint crash_at_point (v : ver) (n : nat) (s : st) (i : N) (ops : list op) : st * N :=
   match ops with
   | [] => (s, 0)
   | o :: r =>
-    match upto_point n s (compile fx s i o) with
+    match upto_point n s (compile v s i o) with
     | inl res => res
-    | inr (s', n') => crash_at_point fx n' s' (i + 1) r
+    | inr (s', n') => crash_at_point v n' s' (i + 1) r
     end
   end.
 
@@ -436,14 +441,14 @@ Definition enc_disk (s : st) (nthreads : nat) : list N :=
   enc_file (truth s)
   ++ concat (map (fun c => match get (N.of_nat c) (sides s) with None => [0] | Some ch => 1 :: enc_file ch end) (seq 0 nthreads)).
 
-Definition has_ack (is : list instr) : bool := existsb (fun i => match i with IAck _ => true | _ => false end) is.
-Fixpoint run_ops_res (fx : bool) (s : st) (i : N) (ops : list op) : st * list N :=
+Definition has_ok (is : list instr) : bool := existsb (fun i => match i with IOk => true | _ => false end) is.
+Fixpoint run_ops_res (v : ver) (s : st) (i : N) (ops : list op) : st * list N :=
   match ops with
   | [] => (s, [])
   | o :: r =>
-    let is := compile fx s i o in
-    let res := run_ops_res fx (run_instrs s is) (i + 1) r in
-    (fst res, (if has_ack is then 1 else 0) :: snd res)
+    let is := compile v s i o in
+    let res := run_ops_res v (run_instrs s is) (i + 1) r in
+    (fst res, (if has_ok is then 1 else 0) :: snd res)
   end.
 
 Definition valid_b (s : st) : bool := match replay_validated s with Some _ => true | None => false end.
@@ -453,9 +458,9 @@ Record case := {
   c_nthreads0 : nat; c_nthreads1 : nat; c_expect : list N }.
 
 Definition model_obs (c : case) : list N :=
-  let cr := crash_at_point true (c_point c) init 0 (c_hist c) in
+  let cr := crash_at_point fixed (c_point c) init 0 (c_hist c) in
   let d := recover (fst cr) in
-  let fin := run_ops_res true d (c_more_base c) (c_more c) in
+  let fin := run_ops_res fixed d (c_more_base c) (c_more c) in
   [snd cr] ++ enc_disk d (c_nthreads0 c) ++ snd fin ++ enc_disk (fst fin) (c_nthreads1 c)
   ++ [if valid_b (fst fin) then 1 else 0].
 
